@@ -287,18 +287,23 @@ class TMap(Sort):
 
 
 class TUnionS(Sort):
-    "a python value of one of: None(0) str(1) int(2) bool(3) object reference(4)"
+    "a python value of one of: None(0) str(1) int(2) bool(3) object reference(4) list of str(5)"
 
     def name(self):
         return "PyU"
 
     def z3(self):
         return _dt("PyU", "mkPyU", [("u_tag", z3.IntSort()), ("u_s", z3.StringSort()), ("u_i", z3.IntSort()), ("u_b", z3.BoolSort()),
-                                    ("u_r", z3.IntSort())])
+                                    ("u_r", z3.IntSort()), ("u_l", TList(Str).z3())])
 
-    def mk(self, tag, s=None, i=None, b=None, r=None):
+    def mk(self, tag, s=None, i=None, b=None, r=None, l=None):
+        ls = TList(Str)
         return self.z3().constructor(0)(z3.IntVal(tag), s if s is not None else z3.StringVal(""), i if i is not None else z3.IntVal(0),
-                                        b if b is not None else z3.BoolVal(False), r if r is not None else z3.IntVal(0))
+                                        b if b is not None else z3.BoolVal(False), r if r is not None else z3.IntVal(0),
+                                        l if l is not None else ls.mk(z3.IntVal(0), z3.K(z3.IntSort(), z3.StringVal(""))))
+
+    def l(self, t):
+        return _acc(self.z3(), 0, 5, t)
 
     def tag(self, t):
         return _acc(self.z3(), 0, 0, t)
